@@ -98,21 +98,64 @@ def extract():
             out += names_of(mod, h.type)
         return out
 
-    def attr_calls_in_order(stmts, wanted):
-        return [n.func.attr for st in stmts for n in ast.walk(st)
-                if isinstance(n, ast.Call) and isinstance(n.func, ast.Attribute) and n.func.attr in wanted]
+    def methods_of(tree, cname):
+        c = [n for n in tree.body if isinstance(n, ast.ClassDef) and n.name == cname][0]
+        return {n.name: n for n in c.body if isinstance(n, ast.FunctionDef)}
+
+    def self_call(node):
+        """name M if node is the call self.M(...)"""
+        if isinstance(node, ast.Call) and isinstance(node.func, ast.Attribute) and isinstance(node.func.value, ast.Name) \
+                and node.func.value.id == "self":
+            return node.func.attr
+        return None
+
+    def attr_calls_in_order(stmts, wanted, meths=None, depth=0):
+        """attribute calls named in `wanted`, in source order; calls of the class's own helper methods are looked into"""
+        out = []
+
+        def visit(node):
+            if isinstance(node, ast.Call):
+                m = self_call(node)
+                if meths and m in meths and m not in wanted and depth < 3:
+                    out.extend(attr_calls_in_order(meths[m].body, wanted, meths, depth + 1))
+                elif isinstance(node.func, ast.Attribute) and node.func.attr in wanted:
+                    for ch in ast.iter_child_nodes(node):
+                        visit(ch)
+                    out.append(node.func.attr)
+                    return
+            for ch in ast.iter_child_nodes(node):
+                visit(ch)
+        for st in stmts:
+            visit(st)
+        return out
+
+    def contains(stmts, target, meths):
+        """target node lies in stmts, directly or inside a helper method of the class that stmts call"""
+        for st in stmts:
+            for n in ast.walk(st):
+                if n is target:
+                    return True
+                m = self_call(n)
+                if m in meths and any(x is target for x in ast.walk(meths[m])):
+                    return True
+        return False
 
     tt = ast.parse(open(svr_threads.__file__).read())
     mt = ast.parse(open(svr_multiplex.__file__).read())
 
     # -- thread: ClientConnectionJob.__call__
     call = find(tt, "ClientConnectionJob", "__call__")
-    t = try_around(call, "handleRequest")
-    if t is None or not all(isinstance(h.body[-1], ast.Break) for h in t.handlers):
-        raise ValueError("ClientConnectionJob.__call__: request loop shape not recognised")
+    jobm = methods_of(tt, "ClientConnectionJob")
+    t = None
+    for fn in [call] + [f for f in jobm.values() if f is not call]:      # the loop may live in a helper method of the job
+        t = try_around(fn, "handleRequest")
+        if t is not None:
+            break
+    if t is None or not all(isinstance(h.body[-1], (ast.Break, ast.Return)) for h in t.handlers):
+        raise ValueError("ClientConnectionJob: request loop shape not recognised")
     thr_job = ladder(svr_threads, t)
-    outer = [x for x in ast.walk(call) if isinstance(x, ast.Try) and x.finalbody and any(t is y for y in ast.walk(x))]
-    thread_finally = attr_calls_in_order(outer[0].finalbody, ("_clientDisconnect", "close")) if outer else []
+    outer = [x for x in ast.walk(call) if isinstance(x, ast.Try) and x.finalbody and contains(x.body, t, jobm)]
+    thread_finally = attr_calls_in_order(outer[0].finalbody, ("_clientDisconnect", "close"), jobm) if outer else []
     # -- thread: handleConnection
     hc = find(tt, "ClientConnectionJob", "handleConnection")
     t = try_around(hc, "_handshake")
@@ -160,10 +203,12 @@ def extract():
     mux_loop = ladder(svr_multiplex, t, continues) if t is not None else []
     evm = find(mt, "SocketServer_Multiplex", "events")
     inactive = []
+    muxm = methods_of(mt, "SocketServer_Multiplex")
     for node in ast.walk(evm):
+        # `if not active:` after `active = self.handleRequest(s)`, or directly `if / elif not self.handleRequest(s):`
         if isinstance(node, ast.If) and isinstance(node.test, ast.UnaryOp) and isinstance(node.test.op, ast.Not) \
-                and getattr(node.test.operand, "id", "") == "active":
-            inactive = attr_calls_in_order(node.body, ("_clientDisconnect", "unregister", "close"))
+                and (getattr(node.test.operand, "id", "") == "active" or self_call(node.test.operand) == "handleRequest"):
+            inactive = attr_calls_in_order(node.body, ("_clientDisconnect", "unregister", "close"), muxm)
     # -- socket calls inside except / finally bodies of the transports must themselves be contained: after a reset
     #    getpeername() & co. raise OSError, and an exception raised inside a handler is caught by no sibling clause
     RISKY = {"getpeername", "getsockname", "getpeercert", "shutdown", "fileno", "settimeout", "gettimeout", "send", "recv",
@@ -203,12 +248,12 @@ def extract():
         return sorted(set(out))
 
     unguarded_calls = []
-    for mod, tree, cname, fnames in ((svr_threads, tt, "ClientConnectionJob", ["__call__", "handleConnection", "denyConnection"]),
-                                     (svr_threads, tt, "Worker", ["run"]),
-                                     (svr_threads, tt, "SocketServer_Threadpool", ["events", "loop"]),
-                                     (svr_multiplex, mt, "SocketServer_Multiplex", ["events", "_handleConnection", "handleRequest", "loop"])):
-        for fname in fnames:
-            unguarded_calls += unguarded(mod, "%s.%s" % (cname, fname), find(tree, cname, fname))
+    SETUP = {"__init__", "init", "__del__", "__repr__", "close", "shutdown", "wakeup", "combine_loop", "sockets", "selector", "process"}
+    for mod, tree, cname in ((svr_threads, tt, "ClientConnectionJob"), (svr_threads, tt, "Worker"),
+                             (svr_threads, tt, "SocketServer_Threadpool"), (svr_multiplex, mt, "SocketServer_Multiplex")):
+        for fname, fn in sorted(methods_of(tree, cname).items()):          # incl. helper methods the serving code is split into
+            if fname not in SETUP:
+                unguarded_calls += unguarded(mod, "%s.%s" % (cname, fname), fn)
 
     # -- with COMMTIMEOUT configured the accepted socket gets its timeout before anything reads from it: in the accept loop,
     #    ahead of the job's creation (so the deny path, which runs in the accept loop, reads with the timeout too)
@@ -252,7 +297,12 @@ def extract():
     # -- the fallback for an exception that cannot be serialised catches every Exception
     sx = find(stree, "Daemon", "_serializeException")
     t = try_around(sx, "dumps")
-    fallback_all = t is not None and bool(set(ladder(server, t)) & {"exception", "baseException"})
+    def handler_classes(mod, h):
+        if h.type is None:
+            return [BaseException]
+        elts = h.type.elts if isinstance(h.type, ast.Tuple) else [h.type]
+        return [eval(compile(ast.Expression(e), "<except>", "eval"), vars(mod)) for e in elts]
+    fallback_all = t is not None and any(c in (Exception, BaseException) for h in t.handlers for c in handler_classes(server, h))
 
     reps = [("connClosed", errors.ConnectionClosedError), ("pyroTimeout", errors.TimeoutError), ("protocol", errors.ProtocolError),
             ("serialize", errors.SerializeError), ("security", errors.SecurityError), ("osError", OSError),
